@@ -33,6 +33,12 @@ def _app(a, i):
     return a
 
 
+def _nullable(a, i):
+    if i % 2 == 0:
+        return None
+    return (0 if a is None else a) + i
+
+
 def _nest(a, i):
     a[0].append(i)
     return (a[0], a[1] + 1)
@@ -44,6 +50,8 @@ ACCS = {
     'maxn': (_maxn, lambda: None, lambda a: (a, 'T'), lambda x: x),
     'app': (_app, lambda: [], lambda a: a + [-1], lambda x: list(x) if isinstance(x, list) else x),
     'pair': (lambda a, i: (a[0] + i, a[1] + 1), lambda: (0, 0), lambda a: (a[0], -a[1]), lambda x: x),
+    # the accumulator returns None at some steps although the seed is not None: None is a value like any other, the fold goes on from it
+    'nullable': (_nullable, lambda: 7, lambda a: ('T', a), lambda x: x),
     # immutable container holding a mutable one that the accumulator mutates in place (the shape of the seed of rs.data.batch)
     'nest': (_nest, lambda: ([], 0), lambda a: (a[0] + [-1], -a[1]), lambda x: (list(x[0]), x[1]) if isinstance(x, tuple) and len(x) == 2 and isinstance(x[0], list) else x),
 }
@@ -126,6 +134,8 @@ def scan_step(p):
             stored = (st, 1)
         elif p['acc'] == 'nest':
             stored = ([st], 1)
+        elif p['acc'] == 'nullable':
+            stored = None if st % 2 == 0 else st
         else:
             stored = st
         store = rs.state.StoreManager(store_factory=rs.state.MemoryStore)
